@@ -301,8 +301,12 @@ pub(crate) fn quote<'a>(s: &'a str, options: &QuoteOptions) -> Cow<'a, str> {
         return ansi_c_quote(s).into();
     }
 
-    let use_default_quotes =
-        !use_ansi_c_quotes && (options.always_quote || s.is_empty() || s.contains(needs_escaping));
+    // N.B. A leading '#' or '~' is only special at the start of a word.
+    let use_default_quotes = !use_ansi_c_quotes
+        && (options.always_quote
+            || s.is_empty()
+            || s.contains(needs_escaping)
+            || s.starts_with(['#', '~']));
 
     if !use_default_quotes {
         return s.into();
@@ -351,12 +355,13 @@ fn backslash_escape(s: &str) -> Cow<'_, str> {
     if s.is_empty() {
         // An empty string must be represented as '' to be a valid shell word.
         Cow::Owned("''".to_string())
-    } else if !s.chars().any(needs_escaping) {
+    } else if !s.chars().any(needs_escaping) && !s.starts_with(['#', '~']) {
         Cow::Borrowed(s)
     } else {
         let mut output = String::with_capacity(s.len());
-        for c in s.chars() {
-            if needs_escaping(c) {
+        for (i, c) in s.chars().enumerate() {
+            // N.B. A leading '#' or '~' would start a comment or a tilde expansion.
+            if needs_escaping(c) || (i == 0 && matches!(c, '#' | '~')) {
                 output.push('\\');
             }
             output.push(c);
